@@ -362,4 +362,149 @@ theorem escalate_model_shape (prev target : Level) (secret : Bytes) :
   refine ⟨rfl, ?_, ?_, ?_⟩ <;> simp [escalateEvents, escalateComplete, Gen.C12.escalateEvents,
     Gen.C12.escalateComplete]
 
+/-! ## satisfiable-hypothesis instances -/
+
+/-- prompt = the buffer ends in `#` -/
+def exPrompt : Bytes → Bool := fun w => w.getLast? == some 35
+/-- level patterns: ends in `>` / ends in `#`; password question: contains `Password:` -/
+def exExec : Bytes → Bool := fun w => w.getLast? == some 62
+def exPriv : Bytes → Bool := fun w => w.getLast? == some 35
+def exPass : Bytes → Bool := isInfix [80, 97, 115, 115, 119, 111, 114, 100, 58]
+
+def exCfg : Cfg :=
+  { depth := 1000, mult := 2, exact := false, strip := true, ret := [10],
+    promptP := exPrompt, stripP := id }
+
+def exEnable : Bytes := [101, 110, 97, 98, 108, 101]
+def exSecret : Bytes := [115, 51, 99]
+def exPrev : Level := { pattern := exExec, escalate := [], escalateAuth := false, escalatePrompt := none }
+def exTarget : Level :=
+  { pattern := exPriv, escalate := exEnable, escalateAuth := true, escalatePrompt := some exPass }
+
+/-- a device that asks: echo of `enable` in two reads, `\nPassword:` in two reads, nothing for
+    the secret, `\nr1#` after its return -/
+def exAsks : St (List (List Bytes)) :=
+  { q := [], d := [[[101, 110, 97], [98, 108, 101]], [[10, 80, 97, 115, 115], [119, 111, 114, 100, 58]], [],
+                   [[10, 114, 49, 35]]] }
+/-- a device that grants the level without asking -/
+def exGrants : St (List (List Bytes)) :=
+  { q := [], d := [[[101, 110, 97, 98, 108, 101]], [[10, 114, 49], [35]]] }
+
+def exG0 : Seg :=
+  { input := exEnable, hidden := false, echo := [[101, 110, 97], [98, 108, 101]], ret := some [10],
+    resp := [[10, 80, 97, 115, 115], [119, 111, 114, 100, 58]] }
+def exG1 : Seg :=
+  { input := exSecret, hidden := true, echo := [], ret := some [10], resp := [[10, 114, 49, 35]] }
+
+/-- the hypotheses of `input_after_expected_response`, `hidden_not_awaited`,
+`secret_only_after_password_prompt` are satisfiable: the asking device yields two segments, and the
+trace has the redacted write right after the password question was delivered -/
+example : (escalate exCfg exPrev exTarget exSecret scriptDev exAsks).segs = [] ++ exG0 :: exG1 :: [] := by
+  decide +kernel
+
+example : (escalate exCfg exPrev exTarget exSecret scriptDev exAsks).trace =
+    [Ev.write exEnable false, Ev.deliver [101, 110, 97], Ev.deliver [98, 108, 101], Ev.write [10] false,
+     Ev.deliver [10, 80, 97, 115, 115], Ev.deliver [119, 111, 114, 100, 58]] ++
+    Ev.write exSecret true :: [Ev.write [10] false, Ev.deliver [10, 114, 49, 35]] := by
+  decide +kernel
+
+/-- … and `sendInteractive` itself on the same two events (the hypothesis shape of the general
+theorems) -/
+example : (sendInteractive (escCfg exCfg) (escalateComplete exPrev exTarget) scriptDev
+    (escalateEvents exTarget exSecret) exAsks).segs = [] ++ exG0 :: exG1 :: [] := by
+  decide +kernel
+
+/-- the hypotheses of `no_input_after_completion` and `secret_never_at_level_prompt` are
+satisfiable: the granting device shows the target prompt, the run ends after one segment -/
+example : (escalate exCfg exPrev exTarget exSecret scriptDev exGrants).segs =
+    { input := exEnable, hidden := false, echo := [[101, 110, 97, 98, 108, 101]], ret := some [10],
+      resp := [[10, 114, 49], [35]] } :: [] ∧
+    exTarget.pattern ([[10, 114, 49], [35]] : List Bytes).flatten = true ∧
+    Completed (escalateComplete exPrev exTarget) ([[10, 114, 49], [35]] : List Bytes).flatten := by
+  refine ⟨by decide +kernel, by decide +kernel, ?_⟩
+  unfold Completed
+  decide +kernel
+
+/-- `result_is_whole_dialogue`: a successful run -/
+example : (escalate exCfg exPrev exTarget exSecret scriptDev exAsks).res =
+    some [101, 110, 97, 98, 108, 101, 10, 80, 97, 115, 115, 119, 111, 114, 100, 58, 10, 114, 49, 35] := by
+  decide +kernel
+
+/-- `WindowSound` (hypothesis of `input_after_own_response`) is satisfiable: it holds of every
+"contains this text" pattern, for every search depth -/
+example (cfg : Cfg) (needle : Bytes) : WindowSound cfg [isInfix needle] :=
+  windowSound_isInfix cfg needle
+
+/-! ## completeness for well-formed dialogues, every segmentation -/
+
+theorem loop_exact (cfg : Cfg) (complete : List (Bytes → Bool)) (evs : List Event) (ts : List Turn)
+    (h : DialogueOK cfg complete evs ts) (q0 : List Bytes) (rest : List (List Bytes)) (b : Bytes)
+    (hq : q0.flatten = []) :
+    let r := loop cfg complete scriptDev evs { q := q0, d := script ts ++ rest } b
+    r.res = some (b ++ (ts.flatMap fun t => t.echo.flatten ++ t.resp.flatten)) ∧
+    r.st.q.flatten = [] ∧ r.st.d = rest ∧
+    writesOf r.trace = evs.flatMap (fun e => [e.input, cfg.ret]) ∧
+    r.segs.length = evs.length := by
+  induction evs generalizing ts q0 b with
+  | nil =>
+    cases ts with
+    | nil => simp [loop, script, Run.trace, writesOf, hq]
+    | cons _ _ => simp [DialogueOK] at h
+  | cons e es ih =>
+    cases ts with
+    | nil => simp [DialogueOK] at h
+    | cons t ts' =>
+      obtain ⟨ht, hrest⟩ := h
+      have hs : script (t :: ts') ++ rest = t.echo :: t.resp :: (script ts' ++ rest) := by
+        simp [script]
+      rw [hs]
+      obtain ⟨h1, h2, h3, h4, h5⟩ := stepEvent_exact cfg complete es.isEmpty e t q0 (script ts' ++ rest) hq ht
+      intro r
+      have hr : r = loop cfg complete scriptDev (e :: es)
+          { q := q0, d := t.echo :: t.resp :: (script ts' ++ rest) } b := rfl
+      simp only [loop] at hr
+      have hin := step_input cfg complete scriptDev es.isEmpty e
+        { q := q0, d := t.echo :: t.resp :: (script ts' ++ rest) }
+      generalize stepEvent cfg complete scriptDev es.isEmpty e
+        { q := q0, d := t.echo :: t.resp :: (script ts' ++ rest) } = o at h1 h2 h3 h4 h5 hr hin
+      obtain ⟨oout, oseg, ⟨oq, od⟩, ob⟩ := o
+      simp only at h1 h2 h3 h4 h5 hr hin
+      subst h1 h3 h4
+      simp only at hr
+      obtain ⟨i1, i2, i3, i4, i5⟩ := ih ts' hrest oq (b ++ (t.echo.flatten ++ t.resp.flatten)) h2
+      rw [hr]
+      refine ⟨?_, i2, i3, ?_, ?_⟩
+      · simp only [i1, List.flatMap_cons, List.append_assoc]
+      · simp only [Run.trace, List.flatMap_cons, writesOf_append, seg_writes, h5, hin] at i4 ⊢
+        rw [i4]
+      · simp [i5]
+
+/-- COMPLETENESS, FOR EVERY SEGMENTATION. Against a device that plays a well-formed dialogue
+(`DialogueOK`: for every event, the echo predicate and the response predicate first hold exactly at
+the end of what the device emits for them, and no turn but possibly the last shows a complete
+pattern) — however the device's output is cut into reads (the chunk lists are arbitrary; only their
+concatenations are constrained), whatever empty chunks are left in the queue — `SendInteractive`
+processes every event: it writes `input₁ ⏎ … inputₙ ⏎`, returns the post-processed concatenation of
+everything the device emitted, and leaves the queue drained and the device at the end of the
+script. -/
+theorem dialogue_exact (cfg : Cfg) (complete : List (Bytes → Bool)) (evs : List Event)
+    (ts : List Turn) (h : DialogueOK cfg complete evs ts) (q0 : List Bytes)
+    (rest : List (List Bytes)) (hq : q0.flatten = []) :
+    let r := sendInteractive cfg complete scriptDev evs { q := q0, d := script ts ++ rest }
+    r.res = some (processOut (outCfg cfg) (ts.flatMap fun t => t.echo.flatten ++ t.resp.flatten)) ∧
+    r.st.q.flatten = [] ∧ r.st.d = rest ∧
+    writesOf r.trace = evs.flatMap (fun e => [e.input, cfg.ret]) ∧
+    r.segs.length = evs.length := by
+  obtain ⟨h1, h2, h3, h4, h5⟩ := loop_exact cfg complete evs ts h q0 rest [] hq
+  intro r
+  refine ⟨?_, h2, h3, h4, h5⟩
+  simp only [r, sendInteractive, h1, Option.map_some, List.nil_append]
+
+/-- the hypothesis is satisfiable: the asking device of the examples above, cut as there -/
+example : DialogueOK (escCfg exCfg) (escalateComplete exPrev exTarget)
+    (escalateEvents exTarget exSecret)
+    [⟨[[101, 110, 97], [98, 108, 101]], [[10, 80, 97, 115, 115], [119, 111, 114, 100, 58]]⟩,
+     ⟨[], [[10, 114, 49, 35]]⟩] := by
+  refine ⟨?_, ?_, trivial⟩ <;> unfold TurnOK Completed <;> decide +kernel
+
 end Scrapli.Inter.C12
